@@ -384,6 +384,41 @@ pub fn run(ctx: &Ctx) -> i32 {
             conform(ctx, "tail-pixels", &case, &f, &want);
         });
     }
+    // a tilemap layer with non-square tiles under a blended image layer
+    if ctx.wants_family("tiles-under") {
+        let tsz: [(u16, u16); 5] = [(2, 4), (1, 3), (4, 2), (3, 1), (2, 2)];
+        let mut cases: Vec<(usize, u16, usize)> = Vec::new();
+        for t in 0..tsz.len() {
+            for mode in [0u16, 1, 2, 10, 16] {
+                for fi in 0..3usize {
+                    cases.push((t, mode, fi));
+                }
+            }
+        }
+        ctx.family("tiles-under", cases.len() as u64, "a tilemap layer of 2x2 tiles sized 2x4 / 1x3 / 4x2 / 3x1 / 2x2 under an image layer of 5 blend modes that covers the whole canvas (layer opacity 200), 3 pixel formats: every canvas pixel of the upper layer is blended against the tile pixel below", true);
+        cases.par_iter().for_each(|(t, mode, fi)| {
+            let (tw, th) = tsz[*t];
+            let case = || format!("tile={}x{} mode={} fmt{}", tw, th, mode, fi);
+            if !ctx.wants("tiles-under", &case) {
+                return;
+            }
+            let fmt = [Fmt::Rgba, Fmt::Gray, Fmt::Indexed(0)][*fi].clone();
+            let (cw, chh) = (tw * 2, th * 2);
+            let mut f = gen::file(cw, chh, &fmt, &[10]);
+            if *fi == 2 {
+                f.frames[0].push(new_palette(0, pal_entries(8, 3)));
+            }
+            f.frames[0].push(Body::Tileset(tileset(1, 3, tw, th, tile_pixels(&fmt, 3, tw, th, 6, (1, 7)), "ts")));
+            f.frames[0].push(Body::Layer(Layer::tilemap("m", 1)));
+            let mut top = Layer::image("top");
+            top.blend = *mode;
+            top.opacity = 200;
+            f.frames[0].push(Body::Layer(top));
+            f.frames[0].push(tm_cel(0, 0, 0, 255, 2, 2, vec![1, 2, 2, 1]));
+            f.frames[0].push(raw_cel(1, 0, 0, 255, cw, chh, pixels(&fmt, cw as usize, chh as usize, 4, (1, 7))));
+            conform(ctx, "tiles-under", &case, &f, &want);
+        });
+    }
     nested(ctx, thorough);
     offsets(ctx, thorough);
     opacities(ctx);
